@@ -944,3 +944,45 @@ Section GenericWire.
       + cbn [required forallb]. rewrite Hmm, Hj. reflexivity.
   Qed.
 End GenericWire.
+
+(* ================= (i) presence of the id member, not its value ================= *)
+(* Whatever value the id member holds - 0, "", null, a big number, a string that looks like a
+   number - the three membership bits, hence the branch of structure_message and the route of
+   handle_message, are the same. *)
+Lemma bits_with_id (v : pval) data :
+  amem k_id (aset k_id v data) = true /\
+  amem k_method (aset k_id v data) = amem k_method data /\
+  amem k_error (aset k_id v data) = amem k_error data.
+Proof.
+  rewrite !amem_aset. rewrite str_eqb_refl, orb_true_r.
+  change (str_eqb k_method k_id) with false. change (str_eqb k_error k_id) with false.
+  rewrite !orb_false_r. repeat split; reflexivity.
+Qed.
+
+Theorem id_presence_not_value (v : pval) data :
+  classify (amem k_id (aset k_id v data)) (amem k_method (aset k_id v data))
+           (amem k_error (aset k_id v data))
+  = classify true (amem k_method data) (amem k_error data).
+Proof. destruct (bits_with_id v data) as (A & B & C). rewrite A, B, C. reflexivity. Qed.
+
+Section IdValue.
+  Variable obj : Type.
+  Variable structure : list N -> pval -> sres obj.
+  Variable reg : list mrow.
+
+  Theorem route_independent_of_id_value st1 st2 data (v1 v2 : pval) st1' st2' (r1 r2 : smres obj) t1 t2 :
+    structure_message obj structure reg st1 (aset k_id v1 data) = (st1', r1) ->
+    structure_message obj structure reg st2 (aset k_id v2 data) = (st2', r2) ->
+    ((exists c fields, r1 = SMGeneric c fields /\ t1 = TGeneric c) \/ (exists o, r1 = SMTyped t1 o)) ->
+    ((exists c fields, r2 = SMGeneric c fields /\ t2 = TGeneric c) \/ (exists o, r2 = SMTyped t2 o)) ->
+    consistent t1 (aset k_id v1 data) -> consistent t2 (aset k_id v2 data) ->
+    handle_branch (shape_of t1) = handle_branch (shape_of t2).
+  Proof.
+    intros H1 H2 R1 R2 C1 C2.
+    destruct (bits_with_id v1 data) as (A1 & B1 & D1). destruct (bits_with_id v2 data) as (A2 & B2 & D2).
+    eapply (classify_by_members_only obj structure reg _ _ _ _ _ _ _ _ _ _ H1 H2 R1 R2 C1 C2).
+    - rewrite A1, A2. reflexivity.
+    - rewrite B1, B2. reflexivity.
+    - rewrite D1, D2. reflexivity.
+  Qed.
+End IdValue.
